@@ -940,3 +940,12 @@ V("c12d-memoised-template-deep-copied", "C12", "silent",
    "    decomposition = copy.deepcopy(_trivial_decomposition(d))\n\n    index = 0\n"),
   (CLEM, "def get_decomposition_from_weights(", "@functools.lru_cache(maxsize=None)\ndef _trivial_decomposition(d):\n    return clements(NumpyConnector().fallback_np.identity(d), connector=NumpyConnector())\n\n\ndef get_decomposition_from_weights("),
   (CLEM, "from typing import List, Tuple, TYPE_CHECKING\n", "import copy\nimport functools\nfrom typing import List, Tuple, TYPE_CHECKING\n"))
+
+# --- C04e aggregate zero tests
+LOOPH = "piquasso/_math/hafnian/loop_hafnian.py"
+V("c04e-sum-of-signed-vector-zero", "C04", {"rule": "C04e", "contains": "np.sum(diagonal)"},
+  (LOOPH, "    loop_corrections = calculate_loop_corrections(\n        reduced_diagonal_right, reduced_diagonal_left, B, dim_over_2\n    )\n\n    return _calc_f_loop(traces, loop_corrections)",
+   "    if np.sum(diagonal) == 0.0:\n        loop_corrections = np.zeros(dim_over_2, dtype=traces.dtype)\n    else:\n        loop_corrections = calculate_loop_corrections(\n            reduced_diagonal_right, reduced_diagonal_left, B, dim_over_2\n        )\n\n    return _calc_f_loop(traces, loop_corrections)"))
+V("c04e-sum-of-abs-zero", "C04", "silent",
+  (LOOPH, "    loop_corrections = calculate_loop_corrections(\n        reduced_diagonal_right, reduced_diagonal_left, B, dim_over_2\n    )\n\n    return _calc_f_loop(traces, loop_corrections)",
+   "    if np.sum(np.abs(diagonal)) == 0.0:\n        loop_corrections = np.zeros(dim_over_2, dtype=traces.dtype)\n    else:\n        loop_corrections = calculate_loop_corrections(\n            reduced_diagonal_right, reduced_diagonal_left, B, dim_over_2\n        )\n\n    return _calc_f_loop(traces, loop_corrections)"))
